@@ -183,6 +183,57 @@ func bitmapNonNilAssumption(fn *ssa.Function) map[edgeKey]bool { return allowLis
 
 func allowListEdges(fn *ssa.Function, alsoEmpty bool) map[edgeKey]bool {
 	out := map[edgeKey]bool{}
+	// "is there a list to respect" decided once and kept in a flag (`filtered := list != nil && !list.IsEmpty()`): a
+	// branch on the flag has a no-list edge too
+	var present func(v ssa.Value, depth int) bool
+	present = func(v ssa.Value, depth int) bool {
+		if depth > 4 {
+			return false
+		}
+		switch x := v.(type) {
+		case *ssa.Phi:
+			some := false
+			for _, e := range x.Edges {
+				if c, ok := e.(*ssa.Const); ok && c.Value != nil && c.Value.Kind() == constant.Bool && !constant.BoolVal(c.Value) {
+					continue
+				}
+				if !present(e, depth+1) {
+					return false
+				}
+				some = true
+			}
+			return some
+		case *ssa.UnOp:
+			if x.Op == token.NOT {
+				if c, ok := x.X.(*ssa.Call); ok && alsoEmpty && isMethodCall(c, "RoaringBitmap/roaring", "Bitmap.IsEmpty") {
+					return true
+				}
+			}
+		case *ssa.BinOp:
+			if x.Op == token.NEQ && (isNilConst(x.X) || isNilConst(x.Y)) {
+				other := x.X
+				if isNilConst(other) {
+					other = x.Y
+				}
+				return strings.HasSuffix(other.Type().String(), "roaring.Bitmap")
+			}
+		}
+		return false
+	}
+	for _, b := range fn.Blocks {
+		iff, ok := b.Instrs[len(b.Instrs)-1].(*ssa.If)
+		if !ok {
+			continue
+		}
+		if _, isPhi := iff.Cond.(*ssa.Phi); isPhi && present(iff.Cond, 0) {
+			out[edgeKey{b, 1}] = true // flag false: no list
+		}
+		if u, isNot := iff.Cond.(*ssa.UnOp); isNot && u.Op == token.NOT {
+			if _, isPhi := u.X.(*ssa.Phi); isPhi && present(u.X, 0) {
+				out[edgeKey{b, 0}] = true
+			}
+		}
+	}
 	for _, b := range fn.Blocks {
 		for _, in := range b.Instrs {
 			switch x := in.(type) {
